@@ -860,8 +860,8 @@ def replay(ctx: Ctx, obj: dict):
 
 
 LEVEL = {
-    "text": "Lean 4: the modelled parsers (name text/wire decoders, TTL parser, dns.wirebase.Parser as a state machine over arbitrary routines of get_bytes/get_counted_bytes/get_remaining/seek/get_name calls, nested restrict_to/restore_furthest blocks and FormError handlers, the _WireReader skeleton with its continue_on_error bookkeeping) are total functions into an error sum (termination = acceptance by Lean), with theorems that every value they return is well formed and renders again, that continue_on_error never raises after the header and records an error exactly when strict mode raises, agreeing with strict mode on clean input; that no Parser routine whatsoever is handed octets from beyond the wire or leaves `end` unrestored (parser_window), and that routines in the fragment of the Parser API the library uses end with a value or FormError only (parser_lib_only_form_error; the raw API can trip get_bytes' assertion, exhibited by an example and replayed on the implementation). The universal 'no foreign exception, no hang' clause over every entry point and option combination is carried by the outcome-class correspondence/oracle (differential fuzzing of all entry points against the {value, library error family} classification), which is exploration, labelled as such.",
-    "note": "Trusted: Lean kernel; classification of exception classes (DESIGN §6 reading); generators. The model covers names, TTLs and the message reader skeleton over a subset of record types; RDATA/zone-file/tokenizer parsers are covered by the outcome-class oracle only (partial).",
+    "text": "Lean 4: the modelled parsers (name text/wire decoders, TTL parser, dns.wirebase.Parser as a state machine over arbitrary routines of get_bytes/get_counted_bytes/get_remaining/seek/get_name calls, nested restrict_to/restore_furthest blocks and FormError handlers, the _WireReader skeleton with its continue_on_error bookkeeping) are total functions into an error sum (termination = acceptance by Lean), with theorems that every value they return is well formed and renders again, that continue_on_error never raises after the header and records an error exactly when strict mode raises, agreeing with strict mode on clean input; that no Parser routine whatsoever is handed octets from beyond the wire or leaves `end` unrestored (parser_window), and that routines in the fragment of the Parser API the library uses end with a value or FormError only (parser_lib_only_form_error; the raw API can trip get_bytes' assertion, exhibited by an example and replayed on the implementation); that whatever a type-specific RDATA parser raises, what leaves dns.rdata.from_wire/from_text through ExceptionWrapper is in the FormError/SyntaxError family (wrapper_closed; tie: 26 exception classes x 2 families). The universal 'no foreign exception, no hang' clause over every entry point and option combination is carried by the outcome-class correspondence/oracle (differential fuzzing of all entry points against the {value, library error family} classification), which is exploration, labelled as such.",
+    "note": "Trusted: Lean kernel; classification of exception classes (DESIGN §6 reading); generators. The model covers names, TTLs, dns.wirebase.Parser, ExceptionWrapper and the message reader skeleton over a subset of record types; RDATA/zone-file/tokenizer/textual-message parsers are covered by the outcome-class oracle only (partial). dns.message.from_text is held to the own-hierarchy / no-hang / renders-back clauses only (DESIGN §11). Recorded findings: dns.edns.option_from_wire of a malformed ECS body raises ValueError (pinned by the suite), $GENERATE with an absurd width (MemoryError) or range (hang).",
     "technique": "Lean 4 totality/closure theorems on parser models + outcome-class correspondence and fuzz oracle on every parser entry point",
     "design_ref": "DESIGN.md §7 C04",
 }
